@@ -38,6 +38,10 @@ def _rel(from_path, to_path):
 def spell(r, page_host, page_path, host, path):
     """one spelling of canonical URL (host, path) as written in a page at (page_host, page_path)"""
     kinds = ['abs', 'ABS', 'frag', 'dots', 'dot1']
+    # dot and empty segments in other positions (checked against URLInfo.parse: all normalise to the canonical path)
+    if path.split('?')[0] != '/':
+        kinds += ['dslash', 'middot']
+        kinds += ['dirdots'] if path.split('?')[0].endswith('/') else ['dotend', 'dotdotend']
     if host == page_host:
         kinds += ['path', 'path', 'rel', 'rel', 'pfrag', 'emptyfrag']
     k = r.choice(kinds)
@@ -53,6 +57,17 @@ def spell(r, page_host, page_path, host, path):
         return 'http://%s:{PORT}/zz/..%s' % (host, path)
     if k == 'dot1':
         return 'http://%s:{PORT}/.%s' % (host, path) if path.startswith('/') else canon(host, path)
+    if k == 'dslash':                  # empty segment: //a/b
+        return 'http://%s:{PORT}/%s' % (host, path)
+    if k == 'middot':                  # /a/./b  (or /./a)
+        i = p0.rfind('/', 0, len(p0) - 1)
+        return 'http://%s:{PORT}%s/.%s%s' % (host, p0[:i], p0[i:], q)
+    if k == 'dotend':                  # /a/b/.   -> /a/b
+        return 'http://%s:{PORT}%s/.%s' % (host, p0, q)
+    if k == 'dotdotend':               # /a/b/zz/.. -> /a/b   (path ENDS in a dot-dot segment)
+        return 'http://%s:{PORT}%s/zz/..%s' % (host, p0, q)
+    if k == 'dirdots':                 # /d/zz/../ -> /d/
+        return 'http://%s:{PORT}%szz/../%s' % (host, p0, q)
     if k == 'path':
         return path
     if k == 'pfrag':
@@ -700,4 +715,5 @@ def ref_crawl(case, port, orders=None):
                 table[k][4] = 'skipped'
                 break
             cur, ini = pg['target'], False
-    return {'requests': requests, 'initial': initial, 'rows': {k: (v[0], v[4]) for k, v in table.items()}, 'failed': failed}
+    return {'requests': requests, 'initial': initial, 'rows': {k: (v[0], v[4]) for k, v in table.items()}, 'failed': failed,
+            'roots': {k: v[3] for k, v in table.items()}}
